@@ -52,8 +52,17 @@ MANIFEST = dict(
          'kernel, so parse_loop_tree_is_model and kv_roundtrip_source_loop* apply to the regenerated loop. Named '
          'obligations per kind of loop token, for the push/pop sites and for the loop invariant point at the site of a '
          'deviation; the regenerated tree is also run against prun inside the kernel on all token strings up to length 3 '
-         '(thorough 4) x 16 option vectors x 2 endings.',
-    note='Trusted: Coq kernel + vm_compute, translate/c01_kvser.py, translate/c01_kvloop.py (the symbolic reading of '
+         '(thorough 4) x 16 option vectors x 2 endings, and against Keyvalues.parse in the exhaustive token-level '
+         'correspondence. The line-break character sets and the emptiness guards of parse are read off that symbolic '
+         'execution (not off the spelling of the tests). escape_text is read semantically: its body is evaluated for '
+         'multiline=False down to <pattern>.sub(<matcher>, text) with optional "nothing to escape" fast paths; the '
+         'patterns are taken as the values the module under test holds and reduced to the set of characters they match; '
+         'the matcher must index a table whose runtime value agrees with the ESCAPES literal; a fast path must look for '
+         'every escaped character (obligation). The Tokenizer options in effect in parse (keyword-only defaults of '
+         'Tokenizer.__init__ overridden by the call) are an obligation. KV/KvFlags.v read_flag is compared with _read_flag '
+         'directly (correspondence:read_flag).',
+    note='Trusted: Coq kernel + vm_compute, translate/c01_kvser.py (incl. re._parser for the character set of the '
+         'escape patterns; checked per character against escape_text), translate/c01_kvloop.py (the symbolic reading of '
          'the loop body: alias tracking of four variables, classification of error messages by prefix) and '
          'translate/c02_tables.py, the meaning given to the atoms and block-stack operations in KV/KvLoop.v '
          '(eval_atom, apply_sop) -- the hand model of the token loop KV/KvParse.v is now proved equal to the regenerated '
